@@ -243,6 +243,40 @@ def execute_conc(init_table, ops, family="ember", universe=("g1", "g2", "g3")):
             if len(ncp.pending) > n0:
                 order.append(cid)
             ev = {"a": op[0], "id": cid, "g": g, "ret": outcome(tasks[cid]) if tasks[cid].done() else "pending"}
+        elif op[0] == "StartupMembers":
+            # the real Multicast.startup(coordinator): table scan, then the groups of the coordinator's endpoints (endpoint 0 skipped)
+            import types
+            coord = types.SimpleNamespace(endpoints={ep: types.SimpleNamespace(member_of={GROUPS[g]: None for g in gs}) for ep, gs in op[1]})
+            ncp.manual = False
+            _run(mc._initialize())             # (the scan itself: reads only)
+            ncp.manual = True
+            trace.append({"a": "Rescan", "tbl": ncp.view(), "ret": "none", "wrote": []})
+            orig_init = mc._initialize
+
+            async def no_scan():
+                return None
+            mc._initialize = no_scan           # already done above; what follows is the subscribe part of startup()
+            tk = loop.create_task(mc.startup(coord))
+            mc._initialize = orig_init
+            k = 900
+            seen = 0
+            for _ in range(40):
+                settle()
+                while seen < len(ncp.writes):
+                    w = ncp.writes[seen]
+                    seen += 1
+                    k += 1
+                    order.append(k)
+                    trace.append({"a": "SubBegin", "id": k, "g": w["grp"], "ret": "pending", "wrote": w, "tbl": ncp.view()})
+                if not ncp.pending:
+                    if tk.done():
+                        break
+                    continue
+                cid = order.pop(0)
+                ncp.answer_oldest("ok")
+                settle()
+                trace.append({"a": "End", "id": cid, "ans": "ok", "ret": "ok", "wrote": [], "tbl": ncp.view()})
+            continue
         elif op[0] == "End":
             if not ncp.pending:
                 continue
@@ -472,7 +506,14 @@ def run(ctx: Ctx):
                 for sched in conc_schedules(ctx.quick):
                     ctraces.append(execute_conc(tab, sched, family))
                     cmetas.append({"family": family, "init": tab, "ops": sched, "conc": True})
-    ctx.validate_traces("Trace_MulticastConc", ctraces, invariants=("Owned", "Mirror"), metas=cmetas, label="multicast overlapping",
+    # the real startup(coordinator) with group memberships on several endpoints (also the same group on two endpoints, endpoint 0 skipped)
+    for family in ("ember", "sl"):
+        for tab in init_tables(3, groups):
+            for eps in ([[1, ["g1", "g2"]]], [[1, ["g1"]], [2, ["g1", "g3"]]], [[0, ["g2"]], [1, ["g3"]], [242, ["g3", "g1"]]]):
+                sched = [("StartupMembers", eps), ("Probe",), ("UnsubBegin", 5, "g1"), ("End", "ok"), ("Probe",)]
+                ctraces.append(execute_conc(tab, sched, family))
+                cmetas.append({"family": family, "init": tab, "ops": sched, "conc": True})
+    ctx.validate_traces("Trace_MulticastConc", ctraces, invariants=("Owned", "Mirror", "Unique"), metas=cmetas, label="multicast overlapping",
                         sig=lambda m, v, tr: "trace:MulticastConc:%s" % ((tr[v.stuck_at - 1] if v.stuck_at and v.stuck_at <= len(tr) else {}).get("a"),))
     # ---- random long histories beyond the model's bounds (code -> spec)
     big = ("g1", "g2", "g3", "g4", "g5")
@@ -523,7 +564,7 @@ def replay(ctx: Ctx, data):
     m = data["replay"]["meta"]
     if m.get("conc"):
         tr = execute_conc(m["init"], [tuple(o) for o in m["ops"]], m["family"])
-        ctx.validate_traces("Trace_MulticastConc", [tr], invariants=("Owned", "Mirror"), metas=[m], label="multicast overlapping")
+        ctx.validate_traces("Trace_MulticastConc", [tr], invariants=("Owned", "Mirror", "Unique"), metas=[m], label="multicast overlapping")
         ctx.add_sample(tr)
         return
     tr = execute(m["init"], [tuple(o) for o in m["ops"]], m["family"], ("g1", "g2", "g3", "g4", "g5"))
